@@ -26,5 +26,5 @@ SPEC = dict(
     proved_clauses=['same residues; a numeric shift on residue i iff the piece differs from its stripped form by more than 1e-6, value = rounded difference',
                     'terminal / labile shifts iff present, value = rounded sum; no other annotation survives (only numeric modifications)'],
     bounded_clauses=['mass within precision x number of shifts of the original (needs additivity of mass() over pieces)', 'unmodified peptide returned unchanged', 'string input'],
-    uncovered_clauses=[], assumptions=['A-REAL', 'LC-ROUND', 'LC-SUMOVER', 'LC-DEEPCOPY'], trusted_base=['z3 5.1', 'cvc5 1.0.3', 'pyvc', 'bounded/C18.py'],
+    uncovered_clauses=[], assumptions=['A-REAL', 'LC-ROUND', 'SPEC-FOLD', 'LC-DEEPCOPY'], trusted_base=['z3 5.1', 'cvc5 1.0.3', 'pyvc', 'bounded/C18.py'],
 )
